@@ -8,7 +8,8 @@ From S4.Base Require Import Bytes Chunk.
 From S4.Spec Require Import LinesSpec WindowSpec.
 From S4.Spec Require RecordsSpec JournalSpec.
 From S4.Model Require Lines Syslines Search Merge Coord Strftime Print Summary Gate.
-From S4.Model Require Calendar Year Records RecordRender LayoutDetect Evtx Journal.
+From S4.Model Require Calendar Year Records RecordRender LayoutDetect Evtx Journal JournalRender.
+From S4.Gen Require JournalTables.
 From S4.Gen Require FixedStructTables.
 From S4.Model Require Import Program.
 From S4.Proofs Require Import ProgramProofs.
@@ -28,11 +29,19 @@ Definition ydate_ex (l : list N) : option Year.ymsg :=
                    then Some (Year.mkMsg (Z.of_N (m - 64)) (Z.of_N (d - 48)) 0%Z) else None
   | _ => None
   end.
-(* journal entries are rendered as `--journal-output cat` (Model/Journal.render_cat), their merge
-   instant is the receive time; libsystemd is the reference oracle of Model/Journal.v *)
+(* libsystemd is the reference oracle of Model/Journal.v; journal entries are rendered by
+   Model/JournalRender.v with the regenerated configuration (the examples select `cat`) *)
+Definition jenv_ex : JournalRender.env := JournalRender.mkEnv 0%Z true.
 Definition O_ex : oracles :=
-  mkOracles dated_ex dtspan_ex ydate_ex RecordRender.f32_int_text Journal.render_cat
-            (fun e => (Journal.e_time e * 1000)%Z) Journal.ref_seek_head Journal.ref_seek_realtime.
+  mkOracles dated_ex dtspan_ex ydate_ex RecordRender.f32_int_text Journal.ref_seek_head Journal.ref_seek_realtime.
+
+(* reader parameters of the examples: PathId i made 1+i find_line_in_block and 2 find_sysline_in_block calls in
+   block-zero analysis; of every three drop_data_try opportunities the first and the third ran *)
+Definition rps_ex : nat -> rparams := fun i => mkRp (1 + i) 2 [true; false; true] Caches.KSeq.
+
+(* dated_ex looks at the first byte only: the oracle hypothesis of block-zero analysis holds for every file *)
+Lemma fb_ex (f : file) : first_byte_ok dated_ex f.
+Proof. apply first_byte_ok_head. intros c r r'. reflexivity. Qed.
 
 Definition src_ex (n : string) : Summary.source :=
   {| Summary.s_name := s2b n; Summary.s_nchars := String.length n; Summary.s_width := String.length n |}.
@@ -48,7 +57,7 @@ Definition cli_ex : Summary.cli :=
   {| Summary.c_colour := false; Summary.c_prepend_file := true; Summary.c_align := true;
      Summary.c_psep := s2b ":"; Summary.c_fmt := Some (s2b "%s"); Summary.c_off := 0%Z;
      Summary.c_sep := s2b "|"; Summary.c_summary := true |}.
-Definition opts_ex : options := mkOptions cli_ex (Some 2000000000%Z) (Some 4000000000%Z).
+Definition opts_ex : options := mkOptions cli_ex (Some 2000000000%Z) (Some 4000000000%Z) JournalRender.OCat jenv_ex.
 
 (* two schedulers: at each step the first enabled event of a priority list *)
 Fixpoint try_events (cap : nat) (s : Coord.state) (cands : list Coord.event) : option (Coord.event * Coord.state) :=
@@ -78,14 +87,15 @@ Definition expected_ex : bytes :=
 
 Lemma ex_domain :
   domain O_ex opts_ex files_ex /\
-  gate_passed O_ex 3 files_ex /\ gate_passed O_ex 64 files_ex /\
+  gate_passed O_ex 3 opts_ex files_ex /\ gate_passed O_ex 64 opts_ex files_ex /\
   complete O_ex 1 opts_ex files_ex sched_lazy /\
   complete O_ex 5 opts_ex files_ex sched_eager /\
   sched_lazy <> sched_eager.
 Proof.
   split; [|split; [|split; [|split; [|split]]]].
   - split; [intro l; cbn; lia|].
-    repeat constructor; try (vm_compute; reflexivity); try (vm_compute; discriminate).
+    repeat (apply Forall_cons; [split; [|apply fb_ex]|]); try apply Forall_nil;
+      (split; [vm_compute; reflexivity|repeat constructor; vm_compute; discriminate]).
   - repeat constructor; vm_compute; reflexivity.
   - repeat constructor; vm_compute; reflexivity.
   - eexists. split; vm_compute; reflexivity.
@@ -96,8 +106,8 @@ Qed.
 (* the composed code-level model evaluates to the specification, at block size 3 under the lazy
    schedule and at block size 64 under the eager one; and this is the output *)
 Lemma ex_program :
-  program_m O_ex 1 3 sched_lazy opts_ex files_ex = POk (program_spec O_ex opts_ex files_ex) /\
-  program_m O_ex 5 64 sched_eager opts_ex files_ex = POk (program_spec O_ex opts_ex files_ex) /\
+  program_m O_ex 1 3 rps_ex sched_lazy opts_ex files_ex = POk (program_spec O_ex opts_ex files_ex) /\
+  program_m O_ex 5 64 rps_ex sched_eager opts_ex files_ex = POk (program_spec O_ex opts_ex files_ex) /\
   fst (program_spec O_ex opts_ex files_ex) = Print.obs expected_ex /\
   let t := snd (program_spec O_ex opts_ex files_ex) in
   Summary.u_bytes t = 68%N /\ Summary.u_lines t = 7%N /\ Summary.u_sys t = 6%N /\
@@ -106,8 +116,8 @@ Proof. vm_compute. repeat split; reflexivity. Qed.
 
 (* the same two equations as instances of the theorem *)
 Lemma ex_program_by_theorem :
-  program_m O_ex 1 3 sched_lazy opts_ex files_ex = POk (program_spec O_ex opts_ex files_ex) /\
-  program_m O_ex 5 64 sched_eager opts_ex files_ex = POk (program_spec O_ex opts_ex files_ex).
+  program_m O_ex 1 3 rps_ex sched_lazy opts_ex files_ex = POk (program_spec O_ex opts_ex files_ex) /\
+  program_m O_ex 5 64 rps_ex sched_eager opts_ex files_ex = POk (program_spec O_ex opts_ex files_ex).
 Proof.
   destruct ex_domain as (D & G3 & G64 & C1 & C5 & _).
   split; apply program_correct; assumption || reflexivity.
@@ -115,8 +125,8 @@ Qed.
 
 (* an incomplete schedule is reported, not silently accepted *)
 Lemma ex_incomplete :
-  program_m O_ex 1 3 (firstn 10 sched_lazy) opts_ex files_ex = PNotFinal /\
-  program_m O_ex 1 3 [Coord.Print] opts_ex files_ex = PSchedule.
+  program_m O_ex 1 3 rps_ex (firstn 10 sched_lazy) opts_ex files_ex = PNotFinal /\
+  program_m O_ex 1 3 rps_ex [Coord.Print] opts_ex files_ex = PSchedule.
 Proof. vm_compute. split; reflexivity. Qed.
 
 (* a file the block-zero gate rejects sends no message (not in the domain of program_correct) *)
@@ -124,15 +134,15 @@ Definition f_small : file := s2b "1 a".
 Definition files_small : list pfile := [mkPfile (src_ex "a") false f_small KText].
 Lemma ex_gate_rejects :
   Gate.gate dated_ex 64 f_small = Gate.FileErrTooSmall /\
-  exists out t, program_m O_ex 1 64 [Coord.Send 0; Coord.Recv 0; Coord.Send 0; Coord.Recv 0]
-                          (mkOptions cli_ex None None) files_small = POk (out, t) /\ out = [].
+  exists out t, program_m O_ex 1 64 rps_ex [Coord.Send 0; Coord.Recv 0; Coord.Send 0; Coord.Recv 0]
+                          (mkOptions cli_ex None None JournalRender.OCat jenv_ex) files_small = POk (out, t) /\ out = [].
 Proof. split; [vm_compute; reflexivity|]. eexists. eexists. vm_compute. split; reflexivity. Qed.
 
 (* ---------------------------------------------------------------- the hypotheses are needed *)
 (* a non-chronological file: the program prints file order, the specification sorts *)
 Definition f_uns : file := s2b ("3 aaa" ++ nl ++ "1 bbb" ++ nl ++ "2 ccc" ++ nl).
 Definition files_uns : list pfile := [mkPfile (src_ex "a") false f_uns KText].
-Definition opts_plain : options := mkOptions (undecorated cli_ex) None None.
+Definition opts_plain : options := mkOptions (undecorated cli_ex) None None JournalRender.OCat jenv_ex.
 Definition sched_uns : schedule :=
   greedy 200 1 [Coord.Print; Coord.Recv 0; Coord.Send 0]
          (Coord.init (tags_of (spec_sources O_ex opts_plain files_uns))).
@@ -144,12 +154,12 @@ Lemma ex_chronological_needed :
 Proof. unfold file_chronological. vm_compute. discriminate. Qed.
 
 Lemma ex_unsorted_refuted :
-  span_ok dtspan_ex /\ file_msgs_2bytes dated_ex f_uns /\ gate_passed O_ex 64 files_uns /\
+  span_ok dtspan_ex /\ file_msgs_2bytes dated_ex f_uns /\ gate_passed O_ex 64 opts_plain files_uns /\
   complete O_ex 1 opts_plain files_uns sched_uns /\
-  exists out t, program_m O_ex 1 64 sched_uns opts_plain files_uns = POk (out, t) /\
+  exists out t, program_m O_ex 1 64 rps_ex sched_uns opts_plain files_uns = POk (out, t) /\
                 Print.payload out = f_uns /\
                 Print.payload (fst (program_spec O_ex opts_plain files_uns)) = sorted_uns /\
-                program_m O_ex 1 64 sched_uns opts_plain files_uns
+                program_m O_ex 1 64 rps_ex sched_uns opts_plain files_uns
                 <> POk (program_spec O_ex opts_plain files_uns).
 Proof.
   split; [intro l; cbn; lia|]. split; [repeat constructor; vm_compute; discriminate|].
@@ -161,15 +171,15 @@ Qed.
 
 (* a file that stage 1 rejects at this block size: the specification has a message, the program prints none *)
 Lemma ex_gate_needed :
-  domain O_ex (mkOptions cli_ex None None) files_small /\
+  domain O_ex (mkOptions cli_ex None None JournalRender.OCat jenv_ex) files_small /\
   Gate.gate dated_ex 64 f_small <> Gate.FileOk /\
-  complete O_ex 1 (mkOptions cli_ex None None) files_small
+  complete O_ex 1 (mkOptions cli_ex None None JournalRender.OCat jenv_ex) files_small
            [Coord.Send 0; Coord.Recv 0; Coord.Send 0; Coord.Recv 0; Coord.Print; Coord.Send 0; Coord.Recv 0] /\
-  length (spec_events O_ex (mkOptions cli_ex None None) files_small) = 1%nat /\
-  program_m O_ex 1 64 [Coord.Send 0; Coord.Recv 0; Coord.Send 0; Coord.Recv 0]
-            (mkOptions cli_ex None None) files_small <> POk (program_spec O_ex (mkOptions cli_ex None None) files_small).
+  length (spec_events O_ex (mkOptions cli_ex None None JournalRender.OCat jenv_ex) files_small) = 1%nat /\
+  program_m O_ex 1 64 rps_ex [Coord.Send 0; Coord.Recv 0; Coord.Send 0; Coord.Recv 0]
+            (mkOptions cli_ex None None JournalRender.OCat jenv_ex) files_small <> POk (program_spec O_ex (mkOptions cli_ex None None JournalRender.OCat jenv_ex) files_small).
 Proof.
-  split; [split; [intro l; cbn; lia|repeat constructor; vm_compute; reflexivity || discriminate]|].
+  split; [split; [intro l; cbn; lia|apply Forall_cons; [split; [split; [vm_compute; reflexivity|repeat constructor; vm_compute; discriminate]|apply fb_ex]|constructor]]|].
   split; [vm_compute; discriminate|].
   split; [eexists; split; vm_compute; reflexivity|].
   split; [vm_compute; reflexivity|]. vm_compute. discriminate.
@@ -184,19 +194,18 @@ Definition dated_nl (l : list N) : option Z :=
   | _ => dated_ex l
   end.
 Definition O_nl : oracles :=
-  mkOracles dated_nl dtspan_ex ydate_ex RecordRender.f32_int_text Journal.render_cat
-            (fun e => (Journal.e_time e * 1000)%Z) Journal.ref_seek_head Journal.ref_seek_realtime.
+  mkOracles dated_nl dtspan_ex ydate_ex RecordRender.f32_int_text Journal.ref_seek_head Journal.ref_seek_realtime.
 Definition f_len1 : file := s2b (nl ++ "8 xyz" ++ nl).
 Definition files_len1 : list pfile := [mkPfile (src_ex "a") false f_len1 KText].
-Definition opts_len1 : options := mkOptions (undecorated cli_ex) (Some 2000000000%Z) None.
+Definition opts_len1 : options := mkOptions (undecorated cli_ex) (Some 2000000000%Z) None JournalRender.OCat jenv_ex.
 
 Definition len1_expected : bytes := s2b ("8 xyz" ++ nl).
 
 Lemma ex_len1_refuted :
-  file_chronological dated_nl f_len1 /\ span_ok dtspan_ex /\ gate_passed O_nl 64 files_len1 /\
+  file_chronological dated_nl f_len1 /\ span_ok dtspan_ex /\ gate_passed O_nl 64 opts_len1 files_len1 /\
   (file_msgs_2bytes dated_nl f_len1 -> False) /\
   Print.payload (fst (program_spec O_nl opts_len1 files_len1)) = len1_expected /\
-  forall sched, program_m O_nl 1 64 sched opts_len1 files_len1 = PWorker 0 (GErr 3).
+  forall sched, program_m O_nl 1 64 rps_ex sched opts_len1 files_len1 = PWorker 0 (GErr 3).
 Proof.
   split; [vm_compute; reflexivity|]. split; [intro l; cbn; lia|].
   split; [repeat constructor; vm_compute; reflexivity|].
@@ -233,7 +242,7 @@ Definition cli_mx : Summary.cli :=
   {| Summary.c_colour := false; Summary.c_prepend_file := true; Summary.c_align := true;
      Summary.c_psep := s2b ":"; Summary.c_fmt := None; Summary.c_off := 0%Z;
      Summary.c_sep := s2b "|"; Summary.c_summary := true |}.
-Definition opts_mx : options := mkOptions cli_mx (Some 2000000000%Z) None.
+Definition opts_mx : options := mkOptions cli_mx (Some 2000000000%Z) None JournalRender.OCat jenv_ex.
 Definition sched_mx : schedule :=
   greedy 400 2 [Coord.Send 4; Coord.Send 3; Coord.Send 2; Coord.Send 1; Coord.Send 0;
                 Coord.Recv 0; Coord.Recv 1; Coord.Recv 2; Coord.Recv 3; Coord.Recv 4; Coord.Print]
@@ -249,13 +258,13 @@ Lemma forallb_Forall {A} (p : A -> bool) (P : A -> Prop) l : (forall x, p x = tr
 Proof. intros H E. apply Forall_forall. intros x Hx. apply H. exact (proj1 (forallb_forall p l) E x Hx). Qed.
 
 Lemma ex_mixed_domain :
-  domain O_ex opts_mx files_mx /\ gate_passed O_ex 64 files_mx /\ gate_passed O_ex 8 files_mx /\
+  domain O_ex opts_mx files_mx /\ gate_passed O_ex 64 opts_mx files_mx /\ gate_passed O_ex 8 opts_mx files_mx /\
   complete O_ex 2 opts_mx files_mx sched_mx.
 Proof.
   split; [|split; [|split]].
   - split; [intro l; cbn; lia|].
     constructor; [|constructor; [|constructor; [|constructor; [|constructor; [|constructor]]]]].
-    + unfold src_ok; cbn [pf_kind pf_data op_after op_before opts_mx]. split; [vm_compute; reflexivity|]. repeat constructor; vm_compute; discriminate.
+    + unfold src_ok; cbn [pf_kind pf_data op_after op_before opts_mx]. split; [|apply fb_ex]. split; [vm_compute; reflexivity|]. repeat constructor; vm_compute; discriminate.
     + unfold src_ok; cbn [pf_kind pf_data op_after op_before opts_mx]. split; [eexists; vm_compute; reflexivity|].
       split; [eexists; eexists; split; [vm_compute; reflexivity|split; [vm_compute; reflexivity|]];
               apply (forallb_Forall (fun r => (0 <=? snd (RecordsSpec.r_tv r))%Z && (snd (RecordsSpec.r_tv r) <? 1000000)%Z));
@@ -268,10 +277,13 @@ Proof.
     + unfold src_ok; cbn [pf_kind pf_data op_after op_before opts_mx]. split; [exact JournalWindow.ref_oracle_J1|].
       split; [cbn; lia|]. split; [intros t [<-|[<-|[<-|[]]]]; vm_compute; reflexivity|].
       split; [vm_compute; reflexivity|]. split; [exact I|].
-      split; [repeat (apply Forall_cons; [apply nl_terminated_b_ok; vm_compute; reflexivity|]); constructor|].
-      vm_compute. repeat constructor; discriminate.
-    + unfold src_ok; cbn [pf_kind pf_data op_after op_before opts_mx]. eexists. split; [vm_compute; reflexivity|].
-      split; [vm_compute; reflexivity|]. repeat constructor; vm_compute; discriminate.
+      repeat (apply Forall_cons; [apply nl_terminated_b_ok; vm_compute; reflexivity|]); constructor.
+    + unfold src_ok; cbn [pf_kind pf_data op_after op_before opts_mx].
+      split; [eexists; split; [vm_compute; reflexivity|]; split; [vm_compute; reflexivity|]; repeat constructor; vm_compute; discriminate|].
+      split; [eexists; split; [vm_compute; reflexivity|]; split; [vm_compute; reflexivity|]; repeat constructor; vm_compute; discriminate|].
+      split; [repeat constructor; vm_compute; intuition discriminate|].
+      intros av A w WU. vm_compute in WU. injection WU as <-.
+      match goal with |- Forall _ ?l => replace l with (@nil Year.ymsg) by (vm_compute; reflexivity) end. constructor.
   - repeat constructor; try (vm_compute; reflexivity).
     intros tab E. vm_compute in E. inversion E; subst tab. vm_compute. reflexivity.
   - repeat constructor; try (vm_compute; reflexivity).
@@ -280,8 +292,8 @@ Proof.
 Qed.
 
 Lemma ex_mixed_program :
-  program_m O_ex 2 64 sched_mx opts_mx files_mx = POk (program_spec O_ex opts_mx files_mx) /\
-  program_m O_ex 2 8 sched_mx opts_mx files_mx = POk (program_spec O_ex opts_mx files_mx) /\
+  program_m O_ex 2 64 rps_ex sched_mx opts_mx files_mx = POk (program_spec O_ex opts_mx files_mx) /\
+  program_m O_ex 2 8 rps_ex sched_mx opts_mx files_mx = POk (program_spec O_ex opts_mx files_mx) /\
   fst (program_spec O_ex opts_mx files_mx) = Print.obs expected_mx /\
   let t := snd (program_spec O_ex opts_mx files_mx) in
   Summary.u_bytes t = Print.blen expected_mx /\ Summary.u_sys t = 3%N /\ Summary.u_fixed t = 2%N /\
@@ -290,7 +302,7 @@ Lemma ex_mixed_program :
 Proof. vm_compute. repeat split; reflexivity. Qed.
 
 Lemma ex_mixed_by_theorem :
-  program_m O_ex 2 64 sched_mx opts_mx files_mx = POk (program_spec O_ex opts_mx files_mx).
+  program_m O_ex 2 64 rps_ex sched_mx opts_mx files_mx = POk (program_spec O_ex opts_mx files_mx).
 Proof. destruct ex_mixed_domain as (D & G & _ & C). apply program_correct; assumption || reflexivity. Qed.
 
 (* the year-less source: the instants the window and the merge use are those assign_years infers,
@@ -299,3 +311,77 @@ Lemma ex_yearless :
   NoDup (yl_heads O_ex fy) /\
   Year.assign_years 2 0 (Year.year_of_seconds 0 mtime_mx) (yl_msgs O_ex fy) = Some [(2020, 1607472000000000000); (2021, 1609545600000000000)]%Z.
 Proof. split; [repeat constructor; vm_compute; intuition discriminate|vm_compute; reflexivity]. Qed.
+
+(* ================================================================ finding F17 at program level *)
+(* a year-less log whose true dates are 1 Mar 1971, 1 Dec 1971, 1 Feb 1972 (mtime Feb 1972) with
+   --dt-after 1972-01-01: the walk dates February 1972 and December 1971, stops there (before the
+   bound) and never reaches March, which keeps the filler year: 1 Mar 1972 — inside the window.
+   The program prints March and February; the specification (inferred dates) only February. *)
+Definition f17 : file := s2b ("C1 march" ++ nl ++ "L1 december" ++ nl ++ "B1 february" ++ nl).
+Definition mt17 : Z := 63072000 + 86400 * 40.
+Definition files17 : list pfile := [mkPfile (src_ex "y") false f17 (KYearless 0 mt17)].
+Definition opts17 : options :=
+  mkOptions (undecorated cli_ex) (Some (63072000 * 1000000000)%Z) None JournalRender.OCat jenv_ex.
+Definition sched17 : schedule :=
+  [Coord.Send 0; Coord.Recv 0; Coord.Send 0; Coord.Recv 0; Coord.Print; Coord.Send 0; Coord.Recv 0; Coord.Print; Coord.Send 0; Coord.Recv 0].
+
+Definition f17_spec_out : bytes := s2b ("B1 february" ++ nl).
+Definition f17_prog_out : bytes := s2b ("C1 march" ++ nl ++ "B1 february" ++ nl).
+
+Lemma ex_f17_refuted :
+  (* the inferred instants are the true ones, the file is chronological under them ... *)
+  (exists tab, yl_table O_ex 0 mt17 f17 = Some tab /\ file_ok (yl_dated O_ex tab) f17 /\
+               map snd tab = [36633600000000000; 60393600000000000; 65750400000000000]%Z) /\
+  NoDup (yl_heads O_ex f17) /\
+  (* ... the stopped walk leaves March in the filler year, inside the window ... *)
+  (exists tes, yl_table_es O_ex (op_after opts17) 0 mt17 f17 = Some tes /\
+               map snd tes = [68256000000000000; 60393600000000000; 65750400000000000]%Z) /\
+  (* ... and the program prints it, the specification does not *)
+  Print.payload (fst (program_spec O_ex opts17 files17)) = f17_spec_out /\
+  exists out t, program_m O_ex 1 64 rps_ex sched17 opts17 files17 = POk (out, t) /\
+                Print.payload out = f17_prog_out.
+Proof.
+  split; [eexists; split; [vm_compute; reflexivity|]; split; [|vm_compute; reflexivity];
+          split; [vm_compute; reflexivity|repeat constructor; vm_compute; discriminate]|].
+  split; [repeat constructor; vm_compute; intuition discriminate|].
+  split; [eexists; split; vm_compute; reflexivity|].
+  split; [vm_compute; reflexivity|].
+  eexists. eexists. split; vm_compute; reflexivity.
+Qed.
+
+(* ================================================================ the cached reader machine at work *)
+(* a 46-byte file of six messages at block size 4 (12 blocks), no window.  Seekable, no drop: all 12 blocks and
+   6 Syslines stay stored; seekable, drop_data_try after every message: 4 blocks dropped, 4 Syslines left;
+   streamed .gz (look-behind drop of the block reader): the decoder went through the 12 blocks, 1 is stored;
+   .xz (sliced at open) and a tar member likewise end normally.
+   The worker sends the same six messages in every case - those of the pure block-wise reader. *)
+Definition f_six : file :=
+  s2b ("1 aaaa" ++ nl ++ "2 bbbb" ++ nl ++ " cc" ++ nl ++ "3 dddd" ++ nl ++ "4 eeee" ++ nl ++ "5 ffff" ++ nl ++ "6 gggg" ++ nl).
+Definition reader_seen (st : Caches.sr_state) : N * N * N :=
+  (Caches.b_dec (Caches.l_blk (Caches.s_lr st)), lenN (Caches.b_blocks (Caches.l_blk (Caches.s_lr st))),
+   lenN (Caches.s_syslines st)).
+Example ex_cached_reader :
+  let st streamed plan := fst (cached_driver dated_ex 4 (mkRp 2 1 plan Caches.KSeq) None None streamed f_six) in
+  reader_seen (st false []) = (0, 12, 6)%N /\ reader_seen (st false [true]) = (0, 8, 4)%N /\
+  reader_seen (st true [true]) = (12, 1, 4)%N /\
+  let pure := text_worker dated_ex dtspan_ex 4 None None false f_six in
+  length (fst pure) = 6%nat /\
+  cached_text_worker dated_ex dtspan_ex 4 (mkRp 2 1 [] Caches.KSeq) None None false f_six = pure /\
+  cached_text_worker dated_ex dtspan_ex 4 (mkRp 2 1 [true] Caches.KSeq) None None false f_six = pure /\
+  cached_text_worker dated_ex dtspan_ex 4 (mkRp 2 1 [true] Caches.KSeq) None None true f_six = pure /\
+  cached_text_worker dated_ex dtspan_ex 4 (mkRp 2 1 [true] Caches.KXz) None None true f_six = pure /\
+  cached_text_worker dated_ex dtspan_ex 4 (mkRp 2 1 [true] Caches.KTar) None None true f_six = pure.
+Proof. vm_compute. repeat split; reflexivity. Qed.
+
+(* the same file, seekable, with the window 3 .. 5: the binary search threaded through the cached machine makes 10
+   find_sysline calls (3 answered from the range map); with drop_data_try after every message one block and two
+   Syslines are dropped; the three messages sent are those of the pure reader *)
+Example ex_cached_window :
+  let A := Some 3000000000%Z in let B := Some 5000000000%Z in
+  reader_seen (fst (cached_win_driver dated_ex 4 (mkRp 2 1 [] Caches.KSeq) A B f_six)) = (0, 12, 6)%N /\
+  reader_seen (fst (cached_win_driver dated_ex 4 (mkRp 2 1 [true] Caches.KSeq) A B f_six)) = (0, 11, 4)%N /\
+  (let c := Caches.s_cnt (fst (cached_win_driver dated_ex 4 (mkRp 2 1 [true] Caches.KSeq) A B f_six)) in
+   (Caches.sc_lru_miss c, Caches.sc_range_hit c) = (10, 3)%N) /\
+  length (fst (text_worker dated_ex dtspan_ex 4 A B false f_six)) = 3%nat /\
+  cached_win_worker dated_ex dtspan_ex 4 (mkRp 2 1 [true] Caches.KSeq) A B f_six = text_worker dated_ex dtspan_ex 4 A B false f_six.
+Proof. vm_compute. repeat split; reflexivity. Qed.
